@@ -50,6 +50,9 @@ def run(ch, config, res):
     srv.text_lit_variation = True
     with ch.scope("run"):
         refusal_first = wl.flag("refusal_first", 1, 2)
+        # in half of the random runs status replies take every shape RFC 5804 allows (codes, literal texts whose lines
+        # look like data or like status lines): a completion that is left half-read shows in the answers that follow
+        srv.status_variation = strat is None and wl.flag("status_shapes", 1, 2)
     forced_lit = None
     with ch.scope("store"):
         if strat is not None:
